@@ -4,6 +4,7 @@ CONSTANTS
   Init0 <- D_Init
   Forbidden <- D_Forbidden
   WholeDesign = TRUE
+  WithLeaves = TRUE
   Dev <- DevLoader
 INVARIANT Confined
 CHECK_DEADLOCK FALSE
